@@ -139,6 +139,9 @@ def check(run):
     # canon.repeat: writers leave the object's content unchanged (so the n-th dump equals the first)
     for k in ("ser:composeinfo.Compose", "ser:composeinfo.Release", "ser:images.Image", "ser:treeinfo.Release", "ser:treeinfo.Media"):
         verify.verify(run, c.E, c.contracts[k], only=("object_unchanged",), crosscheck=False)
+    # normalisations are applied by the FIRST dump (a layered-product variant's release is written as layered whatever the caller left)
+    verify.verify(run, c.E, c.contracts["rt:composeinfo.Variants:1"], only=("layered_product_release_written_as_layered",
+                                                                           "only_nonempty_paths_of_own_arches_written"), crosscheck=False)
     hashseeds(run, c)
     run.assume("A1: json.dump with sort_keys=True is independent of dict insertion order; A2: ConfigParser.write emits in the dict_type's order")
     run.note("sorted-output clauses are proved for collections of TWO symbolic elements under every iteration/insertion order (bounded in size, "
